@@ -24,7 +24,7 @@ InitInP(diag) ==
                          path |-> p, oe |-> None, errs |-> "strict"]
 InitOutP(diag) ==
            /\ InitRest
-           /\ \E c1 \in (IF diag THEN {"A"} ELSE T_Base), oe \in {None} \cup T_True, e \in T_Errs :
+           /\ \E c1 \in (IF diag THEN {"A"} ELSE T_Base), oe \in {None} \cup T_Out, e \in T_Errs :
                 \/ \E c2 \in T_Syms :
                      cell = [id |-> 0, form |-> "str", x |-> "utf_8", bom |-> FALSE, cm |-> None, ie |-> None,
                              c |-> <<c1, c2>>, path |-> "bytes", oe |-> oe, errs |-> e]
